@@ -79,7 +79,9 @@ impl Prop for C07 {
          ASCII, 2-, 3- and 4-byte characters of length 0, 1, 2..9, ~130 and 254..256, and positions/lengths 0, 1, len-1, \
          len, len+1, 255, 256, -1. Each is executed by a real Runtime as `A$=<expr>:PRINT \"[\";A$;\"]\"` (or PRINT for \
          numbers) and compared with a Vec<char> reference model: exact substring/position/code, STRING TOO LONG above \
-         255 characters, a BASIC error for out-of-domain arguments. Distinct = hash of the statement; non-trivial = \
+         255 characters (also when the target is an array element or a string by DEFSTR), a BASIC error for \
+         out-of-domain arguments; one case in eight uses a periodic string with a self-overlapping pattern; replies \
+         typed at INPUT A$ are counted in characters. Distinct = hash of the statement; non-trivial = \
          a multi-byte string or a boundary argument is involved."
     }
 
